@@ -637,7 +637,7 @@ def run(tier, seed):
             nt = True
         else:
             (a, b, c, t_), nt, vs, (mt_, tl_, mp_, pl_) = r
-            if not any(k.startswith("c05:hang:") for k, _, _ in vs):
+            if not vs:
                 worst_p = max(worst_p, mp_ / pl_)
                 worst_t = max(worst_t, mt_ / tl_)
             n_tok += a
@@ -671,8 +671,8 @@ def run(tier, seed):
         "exhaustive": True,
         "inputs": len(items),
         "input_families": stats,
-        "calibration": dict(calib, max_parser_budget_fraction_any_non_hang_input=round(worst_p, 4),
-                            max_tokenizer_budget_fraction_any_non_hang_input=round(worst_t, 4)),
+        "calibration": dict(calib, max_parser_budget_fraction_any_violation_free_input=round(worst_p, 4),
+                            max_tokenizer_budget_fraction_any_violation_free_input=round(worst_t, 4)),
         "killed_by_watchdog": killed,
         "samples": [list(map(str, items[i][:2])) for i in (0, len(items) // 3, len(items) // 2, len(items) - 1)],
         "violations": violations,
